@@ -29,7 +29,7 @@ EXPLANATION = (
     'until hasStopAck, the quit path polls until hasQuitAck; (6) after the inner wait loop of doSearch the engine thread either '
     're-notifies itself or handles pending options before it can sleep again.'
     ' (7) completion-flag typestate of optionsSetFinished; waits written with the predicate overload are modelled like predicate loops.'
-    ' Added later; (10) every function that waits for has<X>Ack() polls with a handler whose <x>Ack callback calls send<X>Ack. (11) startSearch and ponderHit compute `infinite` from the same conjuncts. (12) a blocking wait of the protocol thread on the engine thread (waitStop / waitOptionsSet) is reached only with both hold flags cleared or when no search object exists: no circular wait with the engine thread\'s `while (*ponder || *infinite)`. (13) createWorkers returns only after every helper it constructed - new slot or replaced slot - has signalled initialized.')
+    ' Added later; (10) every function that waits for has<X>Ack() polls with a handler whose <x>Ack callback calls send<X>Ack. (11) startSearch and ponderHit compute `infinite` from the same conjuncts. (12) a blocking wait of the protocol thread on the engine thread (waitStop / waitOptionsSet) is reached only with both hold flags cleared or when no search object exists: no circular wait with the engine thread\'s `while (*ponder || *infinite)`. (13) createWorkers returns only after every helper it constructed - new slot or replaced slot - has signalled initialized. (14) = C09.9 the waits the hand-shakes are built on do not time out silently.')
 UNDECIDED = ('absence of deadlock or lost wake-up over all interleavings of the composed protocol (a liveness property: model '
              'checking territory, a different technique family); fairness of the OS scheduler.')
 ASSUMPTIONS = ['std::condition_variable / std::mutex semantics of the C++ standard',
@@ -56,6 +56,9 @@ def run(fb, rep, tier):
     c11_infinite_predicate(fb, rep)
     c12_protocol_waits(fb, rep)
     c13_new_workers_awaited(fb, rep)
+    # .14 the waits the hand-shakes are built on do not time out silently (shared with C09.9)
+    from . import C09
+    C09.c9_hand_over_waits_are_unbounded(fb, rep, 'C10.14')
 
 
 # ----------------------------------------------------------------------------- .1
@@ -1055,9 +1058,10 @@ def c13_new_workers_awaited(fb, rep, clause='C10.13'):
     """K1/K2 publication of a new helper.  A WorkerThread registers with its parent (addChild) from its own thread; INIT / START
     / STOP are sent to the children registered at that moment and the stop handshake counts them.  createWorkers() must
     therefore not return before every helper it has just constructed has signalled `initialized` - whether the slot is new
-    or an existing helper was replaced because its thread number or subtree size changed.  Accepted shapes: every
-    construction records its slot in a local list in the same block and a later loop over that list waits for each recorded
-    slot; or a counted loop over all slots 0 .. numChildren-1 waits for each."""
+    or an existing helper was replaced because its thread number or subtree size changed.  Accepted shape: every
+    construction records its slot in a local list in the same block and a later loop over that list, on every path to the
+    return, waits for each recorded slot.  (Waiting for *all* slots is not equivalent: Notifier::wait consumes the
+    notification, a second wait on a helper that was kept never returns.)"""
     f = fb.find1('WorkerThread::createWorkers')
     if rep.need(clause, f, 'WorkerThread::createWorkers') is None:
         return
@@ -1118,17 +1122,6 @@ def c13_new_workers_awaited(fb, rep, clause='C10.13'):
                     else:
                         skip = not all(h in f.dominators().get(x, set()) for x in [f.exit] if x in f.blocks)
                     covered = covered or not skip
-            else:
-                # a counted loop over all slots: same bound expression as the constructing loop, starting at 0
-                ch = [x for x, body in loops.items() if cb in body]
-                if not ch:
-                    continue
-                chh = min(ch, key=lambda x: len(loops[x]))
-                wn = decls.get(wv, (0, {}))[1].get('n') or '?w'
-                cn_ = decls.get(cidx.get('id') if isinstance(cidx, dict) else None, (0, {}))[1].get('n') or '?c'
-                same_bound = show((f.blocks[h].get('term') or {}).get('cond'), 200).replace(wn, '$k') == show((f.blocks[chh].get('term') or {}).get('cond'), 200).replace(cn_, '$k')
-                init0 = (strip_cast(decls.get(wv, (0, {}))[1].get('init')) or {}).get('cv') == 0
-                covered = covered or (same_bound and init0)
         ok_all = ok_all and covered
         detail.append('%s:%s %s' % (f.file, ce.get('ln'), 'awaited' if covered else 'NOT awaited'))
     rep.ob(clause, 'K2 must-pass-through', 'createWorkers returns only after every helper it constructed (new slot or replaced slot) has signalled initialized', ok_all,
